@@ -60,6 +60,7 @@ class TRec(Ty):
 
 
 AnySort = z3.DeclareSort('Any')
+CLS_NAME = z3.Function('cls_name', z3.IntSort(), z3.StringSort())     # dynamic class name of an object
 
 
 def sort_of(ty):
@@ -244,6 +245,12 @@ def eq(a, b):
         return z3.And([eq(x, y) for x, y in zip(a.items, b.items)] or [z3.BoolVal(True)])
     if type(a) is not type(b): return z3.BoolVal(False)
     if isinstance(a, (VInt, VBool, VStr, VRef, VAny)): return a.term == b.term
+    if isinstance(a, VList):
+        if a.arr.eq(b.arr): return a.n == b.n
+        i = z3.Int('eqi!%d' % next(_fresh))
+        return z3.And(a.n == b.n, z3.ForAll([i], z3.Implies(z3.And(0 <= i, i < a.n), z3.Select(a.arr, i) == z3.Select(b.arr, i))))
+    if isinstance(a, VSet): return a.mem == b.mem
+    if isinstance(a, VRec) and set(a.fields) == set(b.fields): return z3.And([eq(a.fields[k], b.fields[k]) for k in sorted(a.fields)])
     raise ToolLimit('== on %s' % type(a).__name__)
 
 
@@ -260,6 +267,13 @@ def ite(c, a, b):
         return type(a)(z3.If(c, a.term, b.term)) if not isinstance(a, VStr) else VStr(z3.If(c, a.term, b.term), a.ty)
     if isinstance(a, VRef) and isinstance(b, VRef): return VRef(z3.If(c, a.term, b.term), a.cls)
     if isinstance(a, VBool) and isinstance(b, VInt): return ite(c, VInt(z3.If(a.term, 1, 0)), b)
+    if isinstance(a, VInt) and isinstance(b, VBool): return ite(c, a, VInt(z3.If(b.term, 1, 0)))
+    if isinstance(a, VList) and isinstance(b, VList) and a.elem == b.elem: return VList(z3.If(c, a.arr, b.arr), z3.If(c, a.n, b.n), a.elem)
+    if isinstance(a, VSet) and isinstance(b, VSet) and a.elem == b.elem: return VSet(z3.If(c, a.mem, b.mem), z3.If(c, a.card, b.card), a.elem)
+    if isinstance(a, VDict) and isinstance(b, VDict) and a.ty == b.ty:
+        return VDict(z3.If(c, a.has, b.has), z3.If(c, a.val, b.val), a.key, a.valty, z3.If(c, a.valnone, b.valnone) if a.valnone is not None else None)
+    if isinstance(a, VRec) and isinstance(b, VRec) and set(a.fields) == set(b.fields): return VRec({k: ite(c, a.fields[k], b.fields[k]) for k in a.fields})
+    if isinstance(a, VFunc) and isinstance(b, VFunc) and a.kind == b.kind and a.name == b.name: return a
     raise ToolLimit('cannot merge %s / %s' % (type(a).__name__, type(b).__name__))
 
 
@@ -278,6 +292,40 @@ class State:
         s.ghost = dict(self.ghost); s.trace = list(self.trace)
         return s
 
+    @staticmethod
+    def merge(c, s1, s2):
+        """join of two states after a conditional (c holds in s1, not c in s2)"""
+        m = s1.fork()
+        k = 0
+        while k < len(s1.pc) and k < len(s2.pc) and s1.pc[k] is s2.pc[k]: k += 1
+        m.pc = list(s1.pc[:k])
+        r1, r2 = s1.pc[k:], s2.pc[k:]
+        if r1: m.pc.append(z3.Implies(c, z3.And(r1)) if len(r1) > 1 else z3.Implies(c, r1[0]))
+        if r2: m.pc.append(z3.Implies(z3.Not(c), z3.And(r2)) if len(r2) > 1 else z3.Implies(z3.Not(c), r2[0]))
+        m.env = {}
+        for n in set(s1.env) & set(s2.env):
+            a, b = s1.env[n], s2.env[n]
+            m.env[n] = a if a is b else ite(c, a, b)
+        m.heap = {}
+        for key in set(s1.heap) | set(s2.heap):
+            a, b = s1.heap.get(key), s2.heap.get(key)
+            if a is None or b is None: m.heap[key] = a if a is not None else b     # created lazily on one side only: same initial array
+            elif a is b: m.heap[key] = a
+            else: m.heap[key] = tuple(x if x is y else z3.If(c, x, y) for x, y in zip(a, b))
+        m.ghost = {}
+        for g in set(s1.ghost) | set(s2.ghost):
+            a, b = s1.ghost.get(g), s2.ghost.get(g)
+            if a is None or b is None: m.ghost[g] = a if a is not None else b
+            elif a is b: m.ghost[g] = a
+            elif isinstance(a, V): m.ghost[g] = ite(c, a, b)
+            elif z3.is_expr(a): m.ghost[g] = z3.If(c, a, b)
+            elif a == b: m.ghost[g] = a
+            else: raise ToolLimit('cannot merge ghost %s' % g)
+        j = 0
+        while j < len(s1.trace) and j < len(s2.trace) and s1.trace[j] == s2.trace[j]: j += 1
+        m.trace = s1.trace[:j] + ['(merged: %s | %s)' % ('; '.join(s1.trace[j:]), '; '.join(s2.trace[j:]))]
+        return m
+
     def assume(self, c, why=None):
         self.pc.append(c)
         if why: self.trace.append(why)
@@ -292,7 +340,7 @@ class Outcome:
 class Obligation:
     def __init__(self, name, pc, goal, line=None, trace=None):
         self.name = name; self.pc = list(pc); self.goal = goal; self.line = line; self.trace = list(trace or [])
-        self.props = set(); self.kind = None; self.func = None
+        self.props = set(); self.kind = None; self.func = None; self.group = None
 
 
 # ----------------------------------------------------------------------------- registry
@@ -347,9 +395,13 @@ def declare_class(name, fields, bases=()):
     CLASSES[name] = {'fields': dict(fields), 'bases': list(bases)}
 
 
+ALIASES = {}        # (cls, property name) -> field name: a property that returns the (mutable) field object itself
+
+
 def field_type(cls, field):
     c = CLASSES.get(cls)
     if c is None: raise ToolLimit('undeclared class %s' % cls)
+    if (cls, field) in ALIASES: return field_type(cls, ALIASES[(cls, field)])
     if field in c['fields']: return c['fields'][field], cls
     for b in c['bases']:
         try: return field_type(b, field)
@@ -386,7 +438,7 @@ class Contract:
                  loops=None, prop=None, pure=False, invariant=(), locals=None, defaults=None,
                  is_property=False, name=None, assumed=False, names=None, reads=(), ghost_out=None,
                  shared=(), rely=(), suspends=False, next_raises=(), crash_invariant=(), escape_props=None,
-                 replay=None, observe=(), note=None, decreases=None, skip_args=(), fault_policy=None, frame_on_raise=False):
+                 replay=None, observe=(), note=None, decreases=None, skip_args=(), fault_policy=None, frame_on_raise=False, merge_ifs=False, shards=1):
         self.file = file; self.func = func; self.params = params; self.ret = ret
         self.name = name or func
         props = prop if prop is not None else ''
@@ -402,7 +454,7 @@ class Contract:
         self.next_raises = list(next_raises); self.crash_invariant = clauses(crash_invariant)
         self.escape_props = set(escape_props) if escape_props is not None else None
         self.replay = replay; self.observe = list(observe); self.note = note; self.decreases = decreases
-        self.skip_args = set(skip_args); self.fault_policy = fault_policy; self.frame_on_raise = frame_on_raise
+        self.skip_args = set(skip_args); self.fault_policy = fault_policy; self.frame_on_raise = frame_on_raise; self.merge_ifs = merge_ifs; self.shards = shards
         if self.name in CONTRACTS: raise AssertionError('duplicate contract %s' % self.name)
         CONTRACTS[self.name] = self
 
@@ -472,7 +524,14 @@ def heap_arrays(st, key, ty):
     return st.heap[key]
 
 
+def resolve_alias(cls, field):
+    for c in [cls] + CLASSES.get(cls, {}).get('bases', []):
+        if (c, field) in ALIASES: return ALIASES[(c, field)]
+    return field
+
+
 def heap_get(st, ref, field):
+    field = resolve_alias(ref.cls, field)
     ty, owner = field_type(ref.cls, field)
     key = (owner, field)
     arrs = heap_arrays(st, key, ty)
@@ -486,6 +545,7 @@ def heap_get(st, ref, field):
 
 
 def heap_set(st, ref, field, val):
+    field = resolve_alias(ref.cls, field)
     ty, owner = field_type(ref.cls, field)
     key = (owner, field)
     arrs = heap_arrays(st, key, ty)
